@@ -28,6 +28,8 @@ SPECS = {
     "rec": '<start> ::= "(" <start> ")" | <d>+\n<d> ::= "0" | "1"\n',
     "gen": '<start> ::= <n> ":" <g> ":" <k>\n<n> ::= "1" | "2"\n<k> ::= <d> <d>\n<d> ::= "a" | "b"\n<g> ::= r"[0-9]+" := str(int(<n>) * 3)\n',
     "gen_const": '<start> ::= <h> <body>\n<h> ::= r"[A-Z]{2}" := "HD"\n<body> ::= <d>{1,3}\n<d> ::= "x" | "y"\n',
+    # a computed repetition: freshly fuzzed trees usually carry the wrong number of items, so `repair` inserts / deletes repetitions
+    "counted": '<start> ::= <n> ":" <item>{int(<n>)} ";"\n<n> ::= r"[1-4]"\n<item> ::= "a" | "b"\n',
 }
 
 
@@ -110,6 +112,62 @@ def op_deepcopy(st, rnd):
 
 def op_deepcopy_method(st, rnd):
     return ("new", st["trees"][0].deepcopy(copy_parent=False))
+
+
+def op_partial_copy(st, rnd):
+    """a copy without the children (the documented options of DerivationTree.deepcopy): a new, consistent, childless node"""
+    t = st["trees"][0]
+    cand = [n for n in nodes_of(t) if n.children]
+    if not cand:
+        return None
+    n = rnd.choice(cand)
+    return ("new_side", n.deepcopy(copy_children=False, copy_params=False, copy_parent=False))
+
+
+_SEARCH = {}
+_CONSTRAINTS = {}        # id(grammar) -> constraints returned by the spec reader (incl. the repetition-bounds constraints)
+
+
+def load_spec(text):
+    from fandango.language.parse.parse import parse
+    grammar, constraints = parse(text, use_stdlib=False, use_cache=False)
+    _CONSTRAINTS[id(grammar)] = (grammar, list(constraints))
+    return grammar
+
+
+def search_for(grammar):
+    """the search object of a grammar (adds the repetition-bounds constraints of computed repetitions); created BEFORE any tree
+    of that grammar is fuzzed, as the search itself does"""
+    from fandango.evolution.algorithm import Fandango as Search
+    import fandango.language.grammar.nodes as nodes
+    if id(grammar) not in _SEARCH:
+        cap = nodes.MAX_REPETITIONS
+        try:
+            cs = _CONSTRAINTS.get(id(grammar), (None, []))[1]
+            _SEARCH[id(grammar)] = (grammar, Search(grammar=grammar, constraints=cs, random_seed=0))
+        finally:
+            nodes.MAX_REPETITIONS = cap
+    return _SEARCH[id(grammar)][1]
+
+
+def op_repair(st, rnd):
+    """constraint-driven repair of one individual (fix_individual): a new tree, the input untouched"""
+    from fandango.evolution import GeneratorWithReturn
+    import fandango.language.grammar.nodes as nodes
+    t = st["trees"][0]
+    cap = nodes.MAX_REPETITIONS
+    try:
+        fan = search_for(st["grammar"])
+        fan.evaluator._fitness_cache.clear()
+        run = GeneratorWithReturn(fan.evaluator.evaluate_individual(t))
+        list(run)
+        _f, _failing, suggestion = run.return_value
+        repaired, _fixes = fan.population_manager.fix_individual(t, suggestion)
+    finally:
+        nodes.MAX_REPETITIONS = cap
+    if repaired is t:
+        return ("read", t)           # nothing to repair: the input is handed back, it must be unchanged
+    return ("new", repaired)
 
 
 def op_replace(st, rnd):
@@ -210,7 +268,8 @@ def op_read_hash_eq(st, rnd):
     return ("read", t)
 
 
-OPS = [("deepcopy", op_deepcopy), ("deepcopy_method", op_deepcopy_method), ("replace", op_replace), ("crossover", op_crossover),
+OPS = [("deepcopy", op_deepcopy), ("deepcopy_method", op_deepcopy_method), ("partial_copy", op_partial_copy), ("repair", op_repair),
+       ("replace", op_replace), ("crossover", op_crossover),
        ("prefix_copy", op_prefix_copy), ("split_end_copy", op_split_end_copy), ("add_child", op_add_child), ("set_children", op_set_children),
        ("set_symbol", op_set_symbol), ("set_sender", op_set_sender), ("read_index", op_read_index), ("read_search", op_read_search),
        ("read_value", op_read_value), ("read_hash_eq", op_read_hash_eq)]
@@ -222,6 +281,7 @@ def run_sequence(spec_name, grammar, seq, seed):
     from fandango.language.symbols.terminal import Terminal
     rnd = random.Random(seed)
     random.seed(seed)
+    search_for(grammar)
     a = grammar.fuzz()
     b = grammar.fuzz()
     trees = [a, b]
@@ -263,6 +323,14 @@ def run_sequence(spec_name, grammar, seq, seed):
                     problems.append(f"{where}: editing the result changed an input tree ({ch})")
                 problems.extend(check_G(s.t, where + " (input, after editing the result)"))
             trees = [news[0], trees[-1]]
+        elif kind == "new_side":
+            for s in snaps:
+                ch = s.changed()
+                if ch:
+                    problems.append(f"{where}: an input tree was modified ({ch})")
+            problems.extend(check_G(out, where + " (result)"))
+            if out.children:
+                problems.append(f"{where}: a copy requested without children has children")
         elif kind == "read":
             for s in snaps:
                 ch = s.changed()
@@ -285,7 +353,7 @@ def run(tier="quick", seed=0, pid="C10"):
     evaluations, distinct, samples, violations = 0, set(), [], []
     reported = set()
     for sname, text in SPECS.items():
-        grammar, _ = parse(text, use_stdlib=False, use_cache=False)
+        grammar = load_spec(text)
         seqs = list(itertools.product(OPS, repeat=depth))
         if tier == "thorough":
             rnd = random.Random(seed)
@@ -338,8 +406,7 @@ sys.exit(c10.replay({sname!r}, {names!r}, {sd}))
 
 
 def replay(sname, names, sd):
-    from fandango.language.parse.parse import parse
-    grammar, _ = parse(SPECS[sname], use_stdlib=False, use_cache=False)
+    grammar = load_spec(SPECS[sname])
     ops = dict(OPS)
     probs = run_sequence(sname, grammar, [(n, ops[n]) for n in names], sd)
     for p in probs:
